@@ -28,6 +28,9 @@
 #include "egroup.h"
 
 #include "snoopy.h"
+#ifdef SNOOPY_CONF_THREAD_SAFETY_ENABLED
+#include "tsrm.h"
+#endif
 
 #include <stdio.h>
 #include <stdlib.h>
@@ -53,6 +56,7 @@
 int snoopy_datasource_egroup (char * const resultBuf, size_t resultBufSize, __attribute__((unused)) char const * const arg)
 {
     struct group   gr;
+    int            nssRetVal;
     struct group  *gr_gid         = NULL;
     char          *buffgr_gid     = NULL;
     long           buffgrsize_gid = 0;
@@ -69,7 +73,19 @@ int snoopy_datasource_egroup (char * const resultBuf, size_t resultBufSize, __at
     }
 
     /* Try to get data */
-    if (0 != getgrgid_r(getegid(), &gr, buffgr_gid, buffgrsize_gid, &gr_gid)) {
+    /*
+     * The NSS lookup runs under locks of libc (module table, service data) that fork() does not
+     * reset in the child: if another thread forked right now, the child's first lookup would block
+     * forever. Keep fork() out while the lookup runs (see snoopy_tsrm_forkGuard_enter()).
+     */
+#ifdef SNOOPY_CONF_THREAD_SAFETY_ENABLED
+    snoopy_tsrm_forkGuard_enter();
+#endif
+    nssRetVal = getgrgid_r(getegid(), &gr, buffgr_gid, buffgrsize_gid, &gr_gid);
+#ifdef SNOOPY_CONF_THREAD_SAFETY_ENABLED
+    snoopy_tsrm_forkGuard_leave();
+#endif
+    if (0 != nssRetVal) {
         messageLength  = snprintf(resultBuf, resultBufSize, "ERROR(getgrgid_r)");
     } else {
         if (NULL == gr_gid) {
